@@ -107,6 +107,41 @@ func main() {
 			}
 		}
 	}
+	// One very large Write per goroutine (16384 and 16385 rows of a two- and a
+	// three-column shape): code paths that only exist for big row groups.
+	{
+		var wg sync.WaitGroup
+		outs := make([][]byte, 2)
+		specs := make([]*core.WriterSpec, 2)
+		for i := range specs {
+			shape := []string{"kv", "pair"}[i]
+			w := &core.WriterSpec{Shape: shape, Page: 16384, Codec: core.Codecs[i]}
+			rec := core.GenRec(r, core.GetShape(shape).Type, core.Benign)
+			op := core.AddOp(rec)
+			for k := 0; k < 16384+i; k++ {
+				w.Ops = append(w.Ops, op)
+			}
+			w.Ops = append(w.Ops, core.WriteOp(), core.CloseOp())
+			specs[i] = w
+			wg.Add(1)
+			go func(i int) {
+				defer wg.Done()
+				sink := &core.Sink{}
+				core.ExecWriter(specs[i], sink)
+				outs[i] = sink.Data
+			}(i)
+		}
+		wg.Wait()
+		for i := range specs {
+			total++
+			sink := &core.Sink{}
+			core.ExecWriter(specs[i], sink)
+			if !bytes.Equal(sink.Data, outs[i]) {
+				bad++
+				fmt.Printf("INTERFERENCE %s: bytes of a 16384-row Write differ from the solo run\n", specs[i].Shape)
+			}
+		}
+	}
 	for round := 0; round < *rounds; round++ {
 		// Workloads grow from round to round, and the parallel phase runs BEFORE
 		// the solo references are computed: shared state of the "high-water mark"
